@@ -312,10 +312,11 @@ def run_once(ops, answers=(), labels=None, opcode=False, fingerprint=None):
         r.close()
 
 
-def explore(make_ops, n: int, bound: int, opcode: bool = False, fingerprint=None, max_runs=None):
+def explore(make_ops, n: int, bound: int, opcode: bool = False, fingerprint=None, max_runs=None,
+            per_line_limit: int | None = None):
     """Yield (chooser, state, results) for every schedule with <= ``bound`` preemptions.
     ``make_ops()`` must build fresh operation closures for each execution."""
-    r = Runner(n, opcode, fingerprint)
+    r = Runner(n, opcode, fingerprint, per_line_limit=per_line_limit)
 
     def run(ch):
         st = r.run(make_ops(), ch)
